@@ -3,6 +3,7 @@ package sess
 import (
 	"bytes"
 	"fmt"
+	"strings"
 	"testing"
 	"time"
 
@@ -39,6 +40,7 @@ type C19Case struct {
 	EventHandlers int     `json:"event_handlers"`
 	// the application removes one of its own handlers (Remove...Handler with the id it was given)
 	// right before the send step RemoveAt; -1: no removal
+	HeldReuse     bool    `json:"held_reuse,omitempty"` // the history contains a stretch in which the peer is not reading (messages stay queued, buffer 10) and the application sends ONE message object 2-3 times with another MDReqID each time (steps named held-...)
 	Prior         *Script `json:"prior,omitempty"` // an earlier session on the same stores, after which the application reset both counters
 	RemoveHandler int    `json:"remove_handler"`
 	RemoveAt      string `json:"remove_at,omitempty"`
@@ -101,6 +103,17 @@ func genC19(t *rapid.T) *C19Case {
 		}
 	}
 	c.MaxHB = g.maxHB
+	if rapid.IntRange(0, 5).Draw(t, "heldReuse") == 0 {
+		c.HeldReuse = true
+		c.Cfg.Buf = 10
+		stretch := []rig.Step{{Op: "wire-hold"}}
+		for i := rapid.IntRange(2, 3).Draw(t, "heldSends"); i > 0; i-- {
+			stretch = append(stretch, rig.Step{Op: "send", ID: fmt.Sprintf("held-%d-%s", i, rapid.StringMatching(`[a-z]{0,6}`).Draw(t, "heldID"))})
+		}
+		stretch = append(stretch, rig.Step{Op: "wire-release"})
+		pos := rapid.IntRange(1, len(c.Steps)).Draw(t, "heldAt")
+		c.Steps = append(c.Steps[:pos:pos], append(stretch, c.Steps[pos:]...)...)
+	}
 	if rapid.IntRange(0, 4).Draw(t, "withPrior") == 0 {
 		pg := &hgen{t: t, cfg: cfg, inSeq: 1}
 		p := &Script{Cfg: cfg}
@@ -204,9 +217,17 @@ func checkC19(c *C19Case, rec *evid.Rec) (vs []pbt.Violation) {
 		}
 	}
 	hooks := &rig.Hooks{BeforeRun: register(true)}
-	if c.RemoveHandler >= 0 {
+	var heldObj *fixgen.MarketDataRequestReject
+	if c.HeldReuse {
+		heldObj = fixgen.NewMarketDataRequestReject()
+	}
+	if c.RemoveHandler >= 0 || c.HeldReuse {
 		hooks.AppMessage = func(st *rig.Step) messages.Message {
-			if st.ID == c.RemoveAt && hRef != nil {
+			if heldObj != nil && strings.HasPrefix(st.ID, "held-") {
+				heldObj.SetMDReqID(st.ID) // the application's one message object, used again
+				return heldObj
+			}
+			if c.RemoveHandler >= 0 && st.ID == c.RemoveAt && hRef != nil {
 				hs := c.Handlers[c.RemoveHandler]
 				mt := hs.Type
 				if mt == "ALL" {
@@ -498,7 +519,7 @@ func checkC19(c *C19Case, rec *evid.Rec) (vs []pbt.Violation) {
 	// what the store holds under a transmitted message's number is that message (not judged
 	// with modifying handlers: a retransmission passes through them again, and the bundled
 	// store keeps the object, so the stored message legitimately moves on)
-	if len(vs) == 0 && !anyModify {
+	if len(vs) == 0 && !anyModify && !c.HeldReuse {
 		for n, a := range att {
 			if a.wire == nil || a.saveFail || !a.saveOK {
 				continue
@@ -521,6 +542,9 @@ func checkC19(c *C19Case, rec *evid.Rec) (vs []pbt.Violation) {
 		}
 		res := tr.Steps[i]
 		emitted := len(res.Out) > 0
+		if strings.HasPrefix(c.Steps[i].ID, "held-") {
+			continue // nothing can appear on the wire while the peer is not reading
+		}
 		if emitted == (res.SendErr != "") {
 			vs = append(vs, pbt.V("send-result", "step %d: Send returned error %q but transmitted=%v", i, res.SendErr, emitted))
 		}
@@ -625,6 +649,9 @@ func checkC19(c *C19Case, rec *evid.Rec) (vs []pbt.Violation) {
 	}
 	if inRefusals > 0 {
 		rec.Hist("incoming-handler-refuses")
+	}
+	if c.HeldReuse {
+		rec.Hist("one-object-sent-repeatedly-while-peer-not-reading")
 	}
 	rec.Hist(fmt.Sprintf("out-handlers=%d", outPool))
 	rec.Hist(fmt.Sprintf("in-handlers=%d", inPool))
